@@ -307,6 +307,8 @@ def run(prog, chk):
     # the writer quotes a value with whatever the analyser recommends: the analyser's evidence rule is a condition of C02 too
     from . import c18
     c18.delimiter_agreement(prog, chk)
+    # a value the reserved-word recogniser lets through is written bare: its agreement with next_token is a condition of C02
+    c18.reserved_words_rule(prog, chk, rid="R14", primary=False)
 
     r10 = chk.rule("R10-surrogate-range-tests", "the writer's tests for surrogate pairs (where a folded line may be split) cut the code "
                    "units exactly at the boundaries of the lead and trail ranges", floor=8)
